@@ -121,6 +121,10 @@ func classify(err error) string {
 		// (identity through RootCause is a separate rule, C13.rootcause)
 		return VUser
 	}
+	var te *TErr
+	if errors.As(err, &te) {
+		return VUser // the harness's concrete error type, a nil pointer of it included
+	}
 	var de dig.Error
 	if errors.As(dig.RootCause(err), &de) {
 		return VDig
@@ -149,8 +153,19 @@ type ExecRec struct {
 	Outcome string   // "ok" | "err" | "panic" | "" (still open)
 	Toks    map[int][]*Tok
 	Err     *InjErr
-	Pan     *InjPanic
-	Dur     time.Duration
+	// ErrV: the error VALUE the function returned when that is not Err itself: a nil *TErr stored in the error
+	// result - a non-nil error by Go's rules, which dig has to treat like any other (Err then only keeps the books).
+	ErrV error
+	Pan  *InjPanic
+	Dur  time.Duration
+}
+
+// errVal: the error value the execution returned.
+func (r *ExecRec) errVal() error {
+	if r.ErrV != nil {
+		return r.ErrV
+	}
+	return r.Err
 }
 
 // OpRec is the observable outcome of one API call.
@@ -361,6 +376,13 @@ func buildEnc(items []Enc, embed reflect.Type, embedName string, leafType func(i
 			if (lay == 4 || lay == 7) && len(it.Obj) == 0 {
 				lay = 0
 			}
+			if lay == 8 && (embedName != "In" || len(it.Obj) < 2 || it.Obj[0].IsObj) {
+				lay = 5
+			}
+			embedFirst := lay == 8
+			if lay == 8 {
+				lay = 5
+			}
 			if lay == 5 || lay == 6 {
 				// composition by embedding: nested objects become embedded (anonymous) fields; with lay 5 the
 				// object has no dig.In/dig.Out of its own and is one only through what it embeds
@@ -400,7 +422,7 @@ func buildEnc(items []Enc, embed reflect.Type, embedName string, leafType func(i
 				}
 				children = append(children, sf)
 			}
-			if lay == 7 {
+			if lay == 7 || (embedFirst && lay == 5) {
 				// the first dependency is embedded (anonymous field) ahead of the In/Out embed, when it is a
 				// plain struct type without methods (reflect.StructOf cannot embed types with methods)
 				if c0 := children[0]; !it.Obj[0].IsObj && c0.Type.Kind() == reflect.Struct && c0.Type.Name() != "" && c0.Type.NumMethod() == 0 && reflect.PointerTo(c0.Type).NumMethod() == 0 {
@@ -630,6 +652,9 @@ func (w *World) body(m *mat, args []reflect.Value) []reflect.Value {
 				rec.Toks[i] = append(rec.Toks[i], tk)
 				v = reflect.Append(v, mkVal(r.K.T, tk))
 			}
+		} else if r.Nil && r.K.T == tSliceV && r.K.Group != "" {
+			rec.Toks[i] = []*Tok{nil}
+			v = reflect.Zero(typeTab[tSliceV])
 		} else {
 			tk := &Tok{f.ID, exec, i, 0, failed}
 			rec.Toks[i] = []*Tok{tk}
@@ -648,9 +673,14 @@ func (w *World) body(m *mat, args []reflect.Value) []reflect.Value {
 				rec.Err.Inner = foreignCycleError()
 				rec.Err.Cycle = true
 			}
-			if f.ErrType == 1 && f.Pool == 0 {
+			switch {
+			case f.ErrType == 1 && f.Pool == 0:
 				outs[m.errIdx].Set(reflect.ValueOf(&TErr{Msg: rec.Err.Error()}))
-			} else {
+			case fault == "err" && (f.ID+exec)%5 == 3:
+				// "var e *MyErr; return nil, e": the error result holds a nil pointer
+				rec.ErrV = (*TErr)(nil)
+				outs[m.errIdx].Set(reflect.ValueOf(rec.ErrV))
+			default:
 				outs[m.errIdx].Set(reflect.ValueOf(rec.Err))
 			}
 		}
@@ -747,6 +777,15 @@ func (w *World) step(i int) {
 	switch op.Kind {
 	case OpScope:
 		name := fmt.Sprintf("s%d", len(w.parent))
+		// scope names carry no meaning: equal, empty and hostile names must change nothing
+		switch (w.h.Opts.RandSeed + int64(len(w.parent))) % 8 {
+		case 5:
+			name = ""
+		case 6:
+			name = "dup"
+		case 7:
+			name = "a\"b\\<c>\n`d`\x00"
+		}
 		var s *dig.Scope
 		if op.Scope == 0 {
 			s = w.c.Scope(name)
@@ -841,8 +880,16 @@ func (w *World) stepCall(i int, op *Op, rec *OpRec) {
 		if op.Garbage > 0 {
 			opts = w.h.Garbage[op.Garbage-1].ProvideOpts()
 		}
-		if op.Export {
+		// Export given once, explicitly as false, or twice: like every functional option the last one counts
+		switch ev := (w.h.Opts.RandSeed + int64(i)) % 6; {
+		case op.Export && ev == 0:
+			opts = append(opts, dig.Export(false), dig.Export(true))
+		case op.Export:
 			opts = append(opts, dig.Export(true))
+		case ev == 0 && op.Garbage == 0:
+			opts = append(opts, dig.Export(false))
+		case ev == 1 && op.Garbage == 0:
+			opts = append(opts, dig.Export(true), dig.Export(false))
 		}
 		if op.NameOpt != "" {
 			opts = append(opts, dig.Name(op.NameOpt))
@@ -856,6 +903,9 @@ func (w *World) stepCall(i int, op *Op, rec *OpRec) {
 				as = append(as, asPtr(a))
 			}
 			opts = append(opts, dig.As(as...))
+		}
+		if f != nil && f.LocPC > 0 {
+			opts = append(opts, dig.LocationForPC(reflect.ValueOf(LocFuncs[f.LocPC-1]).Pointer()))
 		}
 		opts = append(opts, invalidOpts(op.Invalid)...)
 		info := new(dig.ProvideInfo)
